@@ -73,6 +73,12 @@ func filterDependencies(n *component_definition.Property, metas []*component_def
 
 	//filter primary for single type
 	if len(result) > 1 && n.Type.Kind() != reflect.Slice && n.Type.Kind() != reflect.Array {
+		//the holder itself is never injectable, so it must not compete with real candidates
+		if others := fas.Filter(result, func(m *component_definition.Meta) bool {
+			return !n.Holder.Meta.IsSelf(m)
+		}); len(others) != 0 {
+			result = others
+		}
 		var candidate = result[0]
 
 		for _, m := range result {
